@@ -51,6 +51,22 @@ CLAIMED = {
              '(column,row) read; oracle = independent reference denotation.',
         ref='DESIGN.md §6 C18', note='Header-name normalisation on arbitrary names is tied by the correspondence (kernel-evaluated instances only); file I/O on the implementation side only.',
         technique='Lean 4 proof (numeral and positional lemmas over the reader model) + correspondence'),
+    'C03': dict(
+        text='Theorems about the model of op_rel_eval against an arbitrary evaluator of the sub-terms (hence for every e, trace set and state): '
+             'reval_out_of_range (#f, e not evaluated, state = after the offset), reval_in_range (exactly e evaluated with every trace moved by the '
+             'offset, then restore), reval_neutral (every index and the saved-position stack afterwards equal before, via restore_exact), '
+             'shift_compose ((e@j)@k positions = e@(j+k) positions when intermediate and final are in range). Correspondence: random e of the '
+             'trace-reading fragment x (position,k) pairs on 1-2 traces; oracle = (reval e k) vs e after (step k) on the implementation.',
+        ref='DESIGN.md §6 C03', note='reval_neutral assumes e keeps the set of loaded traces and the saved-position stack discipline (C17); virtual signals and user functions change caches/heap and are covered by the correspondence.',
+        technique='Lean 4 proof (operator-level laws for every sub-evaluator) + correspondence'),
+    'C04': dict(
+        text='Theorems against an arbitrary evaluator of the condition: findLoop_spec / find_spec (by induction on the distance to the end: the '
+             'hits are exactly the indices from the current one to MAX-INDEX at which the condition is truthy, ascending, index restored), '
+             'hits_ascending, scan_restores (find/g and whenever put every trace back), scanLoop_step (condition once, body once iff truthy, '
+             'lock-step advance, stop when the first trace ends), length_of_list for count. Correspondence: random conditions x bodies x start '
+             'positions on 1-2 traces; oracle = the condition evaluated independently at every visited position by explicit stepping.',
+        ref='DESIGN.md §6 C04', note='find_spec is for one trace and conditions that do not change the state (Neutral); whenever/find/g over several traces are covered by scanLoop_step + scan_restores and the correspondence.',
+        technique='Lean 4 proof (loop invariant by induction) + correspondence'),
 }
 
 REASONS_PENDING = 'check under construction in this round (DESIGN.md §13 build order); not a claim of inapplicability'
